@@ -80,7 +80,35 @@ func runFlags(t *simrt.Tape, keep bool) simrt.Outcome {
 	r := newSimRun("C19", t, keep)
 	sample := map[string]any{}
 	r.guard("flag parsing", func() {
-		switch t.Choose(7) {
+		switch t.Choose(8) {
+		case 7: // a flag given several times: the last value is the one in force, exactly as if it had been given alone
+			rates := []string{"10", "6/m", "1/500ms", "200", "0", "3/h", "7", "50/1s", "infinity", "100/m"}
+			n := 2 + t.Choose(2)
+			var args []string
+			for i := 0; i < n; i++ {
+				args = append(args, "-rate="+rates[t.Choose(len(rates))])
+			}
+			mbs := []string{"-1", "10 MB", "2000", "1KB"}
+			args = append(args, "-max-body="+mbs[t.Choose(4)], "-max-body="+mbs[t.Choose(4)], "-dns-ttl="+[]string{"-1", "0", "5s"}[t.Choose(3)], "-dns-ttl="+[]string{"-1", "0", "1m"}[t.Choose(3)])
+			sample["flag"], sample["value"] = "repeated", args
+			r.log.Addf("repeated %v", args)
+			rate, _, mb, _, ttl, _, err := attackFlagValues(args...)
+			if err != nil {
+				r.fail("C19.repeated-rejected", nil, "%v rejected: %v", args, err)
+				return
+			}
+			lastRate, _, _, _, _, _, _ := attackFlagValues(args[n-1])
+			_, _, lastMB, _, _, _, _ := attackFlagValues(args[n+1])
+			_, _, _, _, lastTTL, _, _ := attackFlagValues(args[n+3])
+			unl := func(f *rateFlag) bool { return f.Freq == 0 || f.Per == 0 }
+			if (unl(rate) != unl(lastRate)) || (!unl(rate) && (rate.Freq != lastRate.Freq || rate.Per != lastRate.Per)) {
+				r.fail("C19.repeated-rate", nil, "%v leaves %d per %v in force; %s alone means %d per %v", args[:n], rate.Freq, rate.Per, args[n-1], lastRate.Freq, lastRate.Per)
+				return
+			}
+			if *mb.n != *lastMB.n || *ttl.ttl != *lastTTL.ttl {
+				r.fail("C19.repeated-value", nil, "%v leaves max-body %d / dns-ttl %v in force, the last values alone mean %d / %v", args[n:], *mb.n, *ttl.ttl, *lastMB.n, *lastTTL.ttl)
+			}
+			r.stats["probe.repeated-flags"]++
 		case 0, 1: // -rate N/D
 			n := []int{1, 2, 3, 7, 10, 50, 100, 999, 1000, 12345, 1 + t.Choose(1000000), 1 + t.Choose(1<<30)}[t.Choose(12)]
 			var text string
